@@ -121,6 +121,12 @@ def run(ctx: Ctx):
                 kw[ctx.rng.choice([x for x in M.NAME_POOL if x not in names])] = 1.5
             shape = [max(0, len(names) + ctx.rng.choice([0, 0, 1, -1])), max(0, (1 if kind == "vector" else len(names)) + ctx.rng.choice([0, 0, 0, 1]))]
             ops.append({"op": op, "kwargs": kw, "shape": shape})
+            if op == "from_data" and len(names) >= 2 and ctx.rng.random() < 0.6:
+                n_ = len(names)
+                cands = [[1, n_], [n_]] if kind == "vector" else [[1, n_ * n_], [n_ * n_], [n_ * n_, 1]]
+                if kind == "vector" and n_ == 4:
+                    cands.append([2, 2])
+                ops.append({"op": "from_data_reshaped", "kwargs": {}, "raw_shape": ctx.rng.choice(cands), "shape": shape})
             if op == "from_dict" and len(names) >= 2 and ctx.rng.random() < 0.5:
                 a, b = ctx.rng.sample(names, 2)
                 known_only = {k: v for k, v in kw.items() if k in names and k != a}
@@ -138,6 +144,12 @@ def run(ctx: Ctx):
             for oi, (op, o) in enumerate(zip(c["ops"], outs)):
                 tag = f"{c['kind']}/{op['op']}/{'err' if 'err' in o else 'ok'}"
                 kinds[tag] = kinds.get(tag, 0) + 1
+                if op["op"] == "from_data_reshaped":
+                    if "err" not in o:
+                        ctx.violation(f"named {c['kind']}.from_data accepted data of shape {tuple(op['raw_shape'])} for {len(c['arglist'])} names "
+                                      f"(required: {(len(c['arglist']), 1) if c['kind'] == 'vector' else (len(c['arglist']), len(c['arglist']))})",
+                                      {"case": c, "op": oi, "observed": o}, key="named-accepts-reshaped")
+                    continue
                 if op["op"] == "from_dict_pair":
                     if "err" not in o:
                         ctx.violation(f"named {c['kind']}.from_dict accepted the key ({op['pair'][0]}, {op['pair'][1]}), which is not one of its names "
